@@ -240,6 +240,42 @@ Theorem c17_config_needs_named_type :
 Proof. exact config_needs_named_type. Qed.
 Print Assumptions c17_config_needs_named_type.
 
+(* ---------- several sets in one process: value semantics ---------- *)
+
+(* A program is any sequence of: a fresh literal, Validate, the key/value / websocket /
+   webtransport / quic reader decoding INTO an existing set, CompressConfig - over any number of
+   sets.  In the model a program is a fold over an environment of VALUES, and:
+   a step on one set never changes another set ... *)
+Theorem c17_sets_isolated : forall env st j, j <> pstep_slot st ->
+  env_get j (fst (prog_step env st)) = env_get j env.
+Proof. exact prog_step_isolated. Qed.
+Print Assumptions c17_sets_isolated.
+
+(* ... and for EVERY program the observations satisfy the predicate [prog_ok] the harness evaluates
+   on the real types after every step: other sets untouched, Validate = the function
+   [validated_spec] of its receiver alone (so the default level is 6 whatever was decoded or
+   validated before), and the config derived from a set that names type, level and window is
+   [eff_spec] of those and the base plays no part (c17_config_function) - whatever happened
+   earlier in the process.  On the Go side (pointer-valued fields, readers that decode in place,
+   package-level state) this is a separate obligation, tied by running such programs
+   (h-negotiation, kinds prog-scripted and prog-random). *)
+Theorem c17_value_semantics : forall steps env,
+  Forall (fun st => (N.to_nat (pstep_slot st) < length env)%nat) steps ->
+  prog_ok env steps (prog_obs env steps) = true.
+Proof. exact prog_value_semantics. Qed.
+Print Assumptions c17_value_semantics.
+
+(* the scripted program of the harness, in the model: decoding clevel=3 into a validated set
+   changes that set only; a set validated afterwards still gets level 6 *)
+Example c17_example_program :
+  let t := mkP [] comp_cto None None [] false [] 0 0 in
+  let steps := [PSet 0 t; PValidate 0; PKV 0 [(k_clevel, s2b "3")]; PSet 1 t; PValidate 1;
+                PConfig 1 (mkC false 1 true 3); PConfig 0 (mkC false 1 true 3)] in
+  map po_cfg (prog_obs [p0; p0] steps)
+    = [None; None; None; None; None; Some (mkC true 6 false 3); Some (mkC true 3 false 3)]
+  /\ last (map po_env (prog_obs [p0; p0] steps)) [] = [set_level t (Some 3%Z); set_level t (Some 6%Z)].
+Proof. vm_compute. split; reflexivity. Qed.
+
 (* ---------- the FORMER code (findings F25, F26, F27 - all repaired in /repo) ---------- *)
 
 (* F25 - FIXED in /repo (d2e00d7); a statement about the FORMER writer [marshal_bin_former], which
